@@ -13,23 +13,23 @@ import (
 
 // OpResult is what an API call returned, as plain values.
 type OpResult struct {
-	Task   int               `json:"task"`
-	Idx    int               `json:"idx"`
-	Kind   string            `json:"kind"`
-	Skip   bool              `json:"skip,omitempty"` // slot empty (an earlier op failed)
-	HasErr bool              `json:"hasErr,omitempty"`
-	Err    string            `json:"err,omitempty"`
-	ErrIs  map[string]bool   `json:"errIs,omitempty"`
-	Panic  string            `json:"panic,omitempty"` // a panic reached the embedding program
-	Val    *plan.Value       `json:"val,omitempty"`
-	Vars   plan.Vars         `json:"vars,omitempty"`
-	Acc    map[string]string `json:"acc,omitempty"`
-	Bool   bool              `json:"bool,omitempty"`
-	Int    int64             `json:"int,omitempty"`
-	Invoke int               `json:"invoke"`
-	Return int               `json:"return"`
-	LockStamp int            `json:"lockStamp,omitempty"`
-	Run    *RunInfo          `json:"-"`
+	Task      int               `json:"task"`
+	Idx       int               `json:"idx"`
+	Kind      string            `json:"kind"`
+	Skip      bool              `json:"skip,omitempty"` // slot empty (an earlier op failed)
+	HasErr    bool              `json:"hasErr,omitempty"`
+	Err       string            `json:"err,omitempty"`
+	ErrIs     map[string]bool   `json:"errIs,omitempty"`
+	Panic     string            `json:"panic,omitempty"` // a panic reached the embedding program
+	Val       *plan.Value       `json:"val,omitempty"`
+	Vars      plan.Vars         `json:"vars,omitempty"`
+	Acc       map[string]string `json:"acc,omitempty"`
+	Bool      bool              `json:"bool,omitempty"`
+	Int       int64             `json:"int,omitempty"`
+	Invoke    int               `json:"invoke"`
+	Return    int               `json:"return"`
+	LockStamp int               `json:"lockStamp,omitempty"`
+	Run       *RunInfo          `json:"-"`
 
 	unwound bool
 	late    []*tengo.Variable
@@ -104,6 +104,18 @@ func (r *OpResult) setErr(err error) {
 	}
 }
 
+// setCtxErr also records whether the error is the error of the call's own
+// context as that context reports it once the call has returned.
+func (r *OpResult) setCtxErr(err error, ctx context.Context) {
+	r.setErr(err)
+	if err == nil {
+		return
+	}
+	if ce := ctx.Err(); ce != nil && errors.Is(err, ce) {
+		r.ErrIs["ctx"] = true
+	}
+}
+
 func (e *Engine) execOp(ti, i int, op *plan.Op, gid uint64) (res *OpResult) {
 	res = &OpResult{Task: ti, Idx: i, Kind: op.Kind}
 	defer func() {
@@ -161,6 +173,15 @@ func (e *Engine) makeCtx(ti, opIdx int, gid uint64, idx int) context.Context {
 		parent, pc := context.WithCancel(context.Background())
 		pc()
 		ctx, cancel = context.WithCancel(parent)
+	case "cancelledPastDeadline":
+		// cancelled by its parent; it also carries a deadline, which has passed:
+		// its error is and stays context.Canceled
+		parent, pc := context.WithCancel(context.Background())
+		pc()
+		ctx, cancel = context.WithDeadline(parent, time.Now().Add(-time.Second))
+	case "timeoutCancelled":
+		// carries a deadline far in the future and is cancelled by hand
+		ctx, cancel = context.WithTimeout(context.Background(), time.Hour)
 	default:
 		if spec.Wrap {
 			type bgKey struct{}
@@ -262,7 +283,8 @@ func (e *Engine) DoOp(op *plan.Op, res *OpResult, mkctx func(int) context.Contex
 		}
 	case plan.OpRunCtx:
 		if c := obj(); c != nil {
-			res.setErr(c.RunContext(mkctx(op.Ctx - 1)))
+			ctx := mkctx(op.Ctx - 1)
+			res.setCtxErr(c.RunContext(ctx), ctx)
 		}
 	case plan.OpReplMod:
 		if c := obj(); c != nil {
@@ -276,8 +298,9 @@ func (e *Engine) DoOp(op *plan.Op, res *OpResult, mkctx func(int) context.Contex
 		}
 	case plan.OpScriptRunCtx:
 		if s := script(); s != nil {
-			c, err := s.RunContext(mkctx(op.Ctx - 1))
-			res.setErr(err)
+			ctx := mkctx(op.Ctx - 1)
+			c, err := s.RunContext(ctx)
+			res.setCtxErr(err, ctx)
 			e.Objs[op.Dst] = c
 		}
 	case plan.OpEval:
@@ -287,8 +310,9 @@ func (e *Engine) DoOp(op *plan.Op, res *OpResult, mkctx func(int) context.Contex
 				params[k] = ToGo(v)
 			}
 		}
-		out, err := tengo.Eval(mkctx(op.Ctx-1), op.Expr, params)
-		res.setErr(err)
+		ctx := mkctx(op.Ctx - 1)
+		out, err := tengo.Eval(ctx, op.Expr, params)
+		res.setCtxErr(err, ctx)
 		if err == nil {
 			val := FromGo(out)
 			res.Val = &val
